@@ -16,7 +16,7 @@ import (
 func init() {
 	register(&propDef{
 		id:      "C12",
-		explain: "Structural necessary conditions of 'the concurrency, open-connection and per-IP counters are exact and the limits are enforced', decided per function on every path by exploration with counters in the abstract state (deferred calls applied at function exit): tryAcquireConcurrency nets +1 exactly when it returns true; ServeConn nets 0 on concurrency and open at every return; serveConnCounted nets 0 on concurrency and -1 on open (it gives back the unit its caller took) at every return; Serve gives back the open unit on the rejection branch of workerPool.Serve and keeps its own listener unit balanced; wrapPerIPConn registers exactly one unit when it returns a per-IP wrapper and none otherwise; perIPConn.Close / perIPTLSConn.Close unregister exactly once - on the call that finds the wrapper not closed yet (a 'closed' flag, or the connection taken out of the wrapper) - and never otherwise. Admission: the success return of tryAcquireConcurrency and the wrapper return of wrapPerIPConn are control-dependent on the comparison with the limit; the rejection paths write 503 / 429 and close the connection; Serve raises and lowers the count of listening Serve calls together with the open unit it holds, and GetOpenConnectionsCount corrects the open count by that counter, not by a constant. (R-wrap) a per-IP accounting wrapper taken from its pool has every field (the counted address above all) assigned on every path of the acquiring function that hands it out, so Close gives the count back for the address that was counted. (R2, shared with C13) per iteration of the worker loop every served connection that was not hijacked in that iteration is closed (which gives its per-IP unit back); Not decided: peak concurrent service under schedules, IPv6 (not counted by design).",
+		explain: "Structural necessary conditions of 'the concurrency, open-connection and per-IP counters are exact and the limits are enforced', decided per function on every path by exploration with counters in the abstract state (deferred calls applied at function exit): tryAcquireConcurrency nets +1 exactly when it returns true; ServeConn nets 0 on concurrency and open at every return; serveConnCounted nets 0 on concurrency and -1 on open (it gives back the unit its caller took) at every return; Serve gives back the open unit on the rejection branch of workerPool.Serve and keeps its own listener unit balanced; wrapPerIPConn registers exactly one unit when it returns a per-IP wrapper and none otherwise; perIPConn.Close / perIPTLSConn.Close unregister exactly once - on the call that finds the wrapper not closed yet (a 'closed' flag, or the connection taken out of the wrapper) - and never otherwise. Admission: the success return of tryAcquireConcurrency and the wrapper return of wrapPerIPConn are control-dependent on the comparison with the limit; the rejection paths write 503 / 429 and close the connection; Serve raises and lowers the count of listening Serve calls together with the open unit it holds, and GetOpenConnectionsCount corrects the open count by that counter, not by a constant. (R-wrap) a per-IP accounting wrapper taken from its pool has every field (the counted address above all) assigned on every path of the acquiring function that hands it out, so Close gives the count back for the address that was counted. (R2, shared with C13) per iteration of the worker loop every served connection that was not hijacked in that iteration is closed (which gives its per-IP unit back); (R-reject) writeFastError, with which the accept loop answers a connection it turns away, arms a deadline on the connection before its first write. Not decided: peak concurrent service under schedules, IPv6 (not counted by design).",
 		run:     runC12,
 	})
 }
@@ -24,6 +24,7 @@ func init() {
 func runC12(p *Prog, r *Report) {
 	runC12x(p, r, false)
 	perIPWrapperRule(p, r)
+	rejectionCannotBlock(p, r)
 	// the per-IP unit of a served connection is given back by Close, which the worker loop owes every connection that
 	// was not hijacked - decided per iteration (shared with C13.R2): a hijack decision that outlives its iteration
 	// leaves later connections unclosed and their address counted for ever
@@ -527,4 +528,62 @@ func openCountReportRule(p *Prog, r *Report) {
 	}
 	r.Check("R-report", "GetOpenConnectionsCount corrects the open count by a counter of listening Serve calls, not by a constant", !bad && n > 0, pos,
 		"the reported count is the internal counter plus or minus a constant: it assumes exactly one listening Serve call, so a server used through ServeConn alone reports -1 at rest and one with two listeners reports 1")
+}
+
+// rejectionCannotBlock (C12.R-reject): the answer to a connection that is not going to be served is written by the
+// accept loop itself. writeFastError arms a deadline on the connection (when its writer is one) before its first
+// Write: on a TLS connection that Write runs the handshake, and a silent client would otherwise stop the server from
+// accepting anybody else.
+func rejectionCannotBlock(p *Prog, r *Report) {
+	fn := p.Func("(*Server).writeFastError")
+	if fn == nil {
+		r.Undecided("R-reject", "(*Server).writeFastError", "not found")
+		return
+	}
+	var assertIf *ssa.BasicBlock
+	var okSucc *ssa.BasicBlock
+	for _, b := range fn.Blocks {
+		iff, ok := b.Instrs[len(b.Instrs)-1].(*ssa.If)
+		if !ok {
+			continue
+		}
+		ex, ok := iff.Cond.(*ssa.Extract)
+		if !ok || ex.Index != 1 {
+			continue
+		}
+		if ta, ok := ex.Tuple.(*ssa.TypeAssert); ok && ta.CommaOk && typeIsNetConn(ta.AssertedType) {
+			assertIf, okSucc = b, b.Succs[0]
+		}
+	}
+	armed := false
+	if okSucc != nil {
+		for _, b := range fn.Blocks {
+			if b != okSucc && !okSucc.Dominates(b) {
+				continue
+			}
+			for _, in := range b.Instrs {
+				if c, ok := in.(ssa.CallInstruction); ok && c.Common().IsInvoke() {
+					if nm := c.Common().Method.Name(); nm == "SetDeadline" || nm == "SetWriteDeadline" {
+						armed = true
+					}
+				}
+			}
+		}
+	}
+	nw, early := 0, 0
+	for _, b := range fn.Blocks {
+		for _, in := range b.Instrs {
+			c, ok := in.(ssa.CallInstruction)
+			if !ok || !c.Common().IsInvoke() || c.Common().Method.Name() != "Write" {
+				continue
+			}
+			nw++
+			if assertIf == nil || !(assertIf.Dominates(b) && assertIf != b) {
+				early++
+			}
+		}
+	}
+	r.Floor("R-reject", "writes in writeFastError", nw, 1)
+	r.Check("R-reject", "writeFastError arms a deadline on the connection before its first write", armed && early == 0, p.Pos(fn.Pos()),
+		fmt.Sprintf("deadline armed under 'the writer is a net.Conn': %v; writes not preceded by that test: %d - the 503/429 for a turned-away connection is written by the accept loop; on a TLS listener the write runs the handshake, and a client that never sends its ClientHello blocks the loop forever", armed, early))
 }
